@@ -1,6 +1,8 @@
 import NfpmModel.Lemmas.Closure
 import NfpmModel.Lemmas.NoClash
 import NfpmModel.Lemmas.Kept
+import NfpmModel.Generated.FsPaths
+import NfpmModel.Generated.G3Types
 /-
   C05  Content planning: selection, placement, parent closure, collision rejection.
 
@@ -359,5 +361,9 @@ example :
 example :
     isCollision (plan {} { umask := 0o022, packager := [], noGlob := false, mtime := 0 }
       [ { src := b!"t", dst := b!"/a", type := T.symlink }, { dst := b!"/a/b", type := T.dir } ]) = true := by decide
+
+/-- the translator regenerated, on this run and from the working tree, every table this property is tied through
+    (when an extraction fails the reviewed table stands in so that the model still compiles, and this stops checking) -/
+theorem translator_tables_regenerated : Generated.extracted_FsPaths = true ∧ Generated.extracted_G3Types = true := by decide
 
 end Nfpm.Props.C05
